@@ -137,6 +137,17 @@ class VOpaque(Val):
         return f"VOpaque({self.kind})"
 
 
+class VMaybe(Val):
+    """Optional value: `val` if the symbolic Bool `present` holds, else None (avoids 2^n path splits for
+    independent optional fields such as the ten model groups of a pipeline)."""
+
+    def __init__(self, present, val):
+        self.present, self.val = present, val
+
+    def __repr__(self):
+        return f"VMaybe({self.present}, {self.val})"
+
+
 class VSlice(Val):
     def __init__(self, lo, hi, step):
         self.lo, self.hi, self.step = lo, hi, step
